@@ -15,6 +15,7 @@
     Y <ln><p> <table> <arg>*                      typeset/syntax.rs `parse` + `interpret` (<ln> = long_option_names, <p> = portable;
                                                   <table> = `@typeset` | `@export` | `@readonly` (re-extracted constants) | `_` |
                                                   comma-separated `<short>:<long>:<attr>`, attr 0 none / 1 ReadOnly / 2 Export)
+    Q <builtin> <portable> <arg>*                 cd / pwd / unset / unalias `syntax::parse`: parse_arguments + the built-in's own checks
     U <names> <init> <params0> <arg>*             `set arg…` run in a shell: set.rs `main` (<init> = `name.bit;…` for every option,
                                                   <params0> = `_` or comma-separated positional parameters)
   <names> = `_` or comma-separated answers of yash_env::option / Signals::str2sig:
@@ -36,6 +37,7 @@ import YashModel.Args.OptionNames
 import YashModel.Args.Typeset
 import YashModel.Args.SeparateModeLemmas
 import YashModel.Args.Str2sig
+import YashModel.Args.Post
 import YashModel.Args.TypesetSpec
 import YashModel.Generated.OptionNames
 import YashModel.Generated.ArgSpecs
@@ -461,6 +463,39 @@ def runTypeset (specs : List TSpec) (ln portable : Bool) (args : List Typeset.St
     else "-"
   obs ++ "\t" ++ spec
 
+/-! what the built-in's syntax.rs does after `parse_arguments` (cd, pwd, unset, unalias) -/
+
+open YashModel.Args.Post in
+def runPost (b : String) (p : Bool) (args : List (List Char)) : Option String :=
+  let opt (o : Option (List Char)) : String := match o with | some s => encChars s | none => "~"
+  match b with
+  | "cd" => some (match cdParse p args with
+      | .ok c => s!"ok cd physical={bit c.physical} ensure={bit c.ensurePwd} operand={opt c.operand}"
+      | .error (.common e) => s!"err:common:{showErr e}"
+      | .error .ensurePwdNotPhysical => "err:ensurePwdNotPhysical"
+      | .error .emptyOperand => "err:emptyOperand"
+      | .error (.unexpectedOperands o) => s!"err:unexpectedOperands:[{showStrs o}]")
+  | "pwd" => some (match pwdParse p args with
+      | .ok m => s!"ok pwd physical={bit m}"
+      | .error (.common e) => s!"err:common:{showErr e}"
+      | .error (.unexpectedOperands o) => s!"err:unexpectedOperands:[{showStrs o}]")
+  | "unset" => some (match unsetParse p args with
+      | .ok c => s!"ok unset functions={bit c.functions} [{showStrs c.names}]"
+      | .error (.common e) => s!"err:common:{showErr e}"
+      | .error .conflictingOption => "err:conflictingOption"
+      | .error .missingOperand => "err:missingOperand")
+  | "unalias" => some (match unaliasParse p args with
+      | .ok (.remove n) => s!"ok unalias remove [{showStrs n}]"
+      | .ok .removeAll => "ok unalias all"
+      | .error (.common e) => s!"err:common:{showErr e}"
+      | .error .conflictingOptionAndOperand => "err:conflictingOptionAndOperand"
+      | .error .missingArgument => "err:missingArgument")
+  | _ => none
+
+open YashModel.Args.Post in
+def postSpecs (b : String) : List OptionSpec :=
+  match b with | "cd" => cdSpecs | "pwd" => pwdSpecs | "unset" => unsetSpecs | "unalias" => unaliasSpecs | _ => []
+
 def runLine (line : String) : String :=
   match words line with
   | "P" :: m :: sp :: args =>
@@ -548,6 +583,19 @@ def runLine (line : String) : String :=
          else if obs = exp then "ok" else s!"FAIL:reference-reader-expects {exp}"
        obs ++ "\t" ++ spec
      | _, _, _, _ => "bad-case\t-")
+  | "Q" :: b :: p :: args =>
+    (match p.toList.head? >>= parseBit, args.mapM decChars with
+     | some p, some args =>
+       (match runPost b p args with
+        | some obs =>
+          -- the canonical spelling must come to the same command / error (attached arguments need the extensions)
+          let spec := if p then "-" else
+            match runPost b p (Spec.canon (postSpecs b) args) with
+            | some o2 => if o2 = obs then "ok" else s!"FAIL:canonical-spelling-gives {o2}"
+            | none => "-"
+          obs ++ "\t" ++ spec
+        | none => "bad-case\t-")
+     | _, _ => "bad-case\t-")
   | "Y" :: m :: tb :: args =>
     (match m.toList, parseTTable tb, args.mapM decChars with
      | [a, b], some specs, some args =>
